@@ -24,6 +24,10 @@ InflateR(bytes) == PrimCall("inflate", <<bytes>>)          \* [ok, out]
 Inflate(bytes) == InflateR(bytes).out
 \* rows (by 0-based index, `rowlen` bytes each) of a zlib stream - or of the bytes themselves when ~z: [ok, total, rows]
 InflateRows(bytes, rowlen, indices, z) == PrimCall("inflate-rows", <<bytes, rowlen, indices, z>>)
+\* a file read piecewise (fonts): bytes [off, off + len), its length, the sfnt checksum of a range (four bytes)
+FileSlice(path, off, len) == PrimCall("slice", <<path, off, len>>)
+FileLen(path) == PrimCall("filelen", <<path>>)
+FileSum32(path, off, len) == PrimCall("sum32", <<path, off, len>>)
 CRC32(bytes)   == PrimCall("crc32", <<bytes>>)       \* four big-endian bytes
 MD5(bytes)     == PrimCall("md5", <<bytes>>)
 \* MD5 applied `times` times, each time to the first n bytes of the previous value (the loop itself, nothing else)
